@@ -14,19 +14,26 @@ ToSet(s) == {s[i] : i \in 1..Len(s)}
 HCall(e) ==
   IF e.api \in {"gai", "ghbn"} THEN
        lr' = lr @@ (e.t :> [api |-> e.api, family |-> e.family, port |-> IF "port" \in DOMAIN e THEN e.port ELSE 0, name |-> e.wname,
-                            lit |-> IF "lit" \in DOMAIN e THEN e.lit ELSE 0, exp |-> {}, sent |-> FALSE, rev |-> "", ptr |-> {}])
-       /\ UNCHANGED <<lcfg, lq, lfd>> /\ Acc
+                            lit |-> IF "lit" \in DOMAIN e THEN e.lit ELSE 0, exp |-> {}, sent |-> FALSE, sentq |-> {}, rev |-> "", ptr |-> {}, hrev |-> ""])
+       /\ lnow' = e.now /\ UNCHANGED <<lcfg, lq, lfd, lc>> /\ Acc
   ELSE IF e.api \in {"ghba", "gni"} THEN
-       lr' = lr @@ (e.t :> [api |-> e.api, family |-> e.family, port |-> 0, name |-> "", lit |-> 0, exp |-> {}, sent |-> FALSE,
-                            rev |-> IF e.family = 4 THEN ReverseName4(e.addr) ELSE ReverseName6(e.addr), ptr |-> {}])
-       /\ UNCHANGED <<lcfg, lq, lfd>> /\ Acc
+       lr' = lr @@ (e.t :> [api |-> e.api, family |-> e.family, port |-> 0, name |-> "", lit |-> 0, exp |-> {}, sent |-> FALSE, sentq |-> {},
+                            rev |-> IF e.family = 4 THEN ReverseName4(e.addr) ELSE IF e.long = 1 THEN ReverseName6L(e.addr) ELSE ReverseName6(e.addr), ptr |-> {},
+                            hrev |-> HostsRev(e.family, e.addr, e.long)])
+       /\ lnow' = e.now /\ UNCHANGED <<lcfg, lq, lfd, lc>> /\ Acc
   ELSE IF e.api \in {"setservers", "reinit"} THEN Stop
+  ELSE IF "now" \in DOMAIN e THEN lnow' = e.now /\ UNCHANGED <<lcfg, lr, lq, lfd, lc>> /\ Acc
   ELSE Skip
 
 (* the request a transmitted question belongs to: by token for forward names, by reverse name for PTR questions *)
 OwnerOf(f) ==
   IF f.qt = 12 THEN {t \in DOMAIN lr : lr[t].rev = f.lname}
-  ELSE {t \in DOMAIN lr : (t = f.t \/ lr[t].name = f.lname) /\ lr[t].api \in {"gai", "ghbn"}}
+  ELSE LET byname == {t \in DOMAIN lr : (t = f.t \/ lr[t].name = f.lname) /\ lr[t].api \in {"gai", "ghbn"}}
+           \* several outstanding lookups of one name: a retransmission stays with its request, a new question
+           \* belongs to a request that has not asked that type yet
+           known == {t \in byname : f.qid \in DOMAIN lq /\ lq[f.qid].t = t}
+           fresh == {t \in byname : f.qt \notin lr[t].sentq}
+       IN IF known # {} THEN known ELSE IF fresh # {} THEN fresh ELSE byname
 
 HFrame(e, f) ==
   IF f.bad = 1 THEN Skip
@@ -34,19 +41,26 @@ HFrame(e, f) ==
   ELSE IF OwnerOf(f) = {} THEN Skip
   ELSE LET t == CHOOSE x \in OwnerOf(f) : TRUE IN
        IF lr[t].name = "localhost" THEN Rej("c13.localhost_sent_to_dns")
+       ELSE IF f.qt = 12 /\ FileFirst /\ lr[t].hrev # "" THEN Rej("c13.hosts_entry_ignored_by_reverse_lookup")
        ELSE IF lr[t].api \in {"gai", "ghbn"} /\ f.qt \notin {1, 28} THEN Rej("c13.forward_lookup_asks_wrong_type")
        ELSE IF lr[t].api \in {"gai", "ghbn"} /\ lr[t].family = 4 /\ f.qt # 1 THEN Rej("c13.family_4_lookup_asks_aaaa")
        ELSE IF lr[t].api \in {"gai", "ghbn"} /\ lr[t].family = 6 /\ f.qt # 28 THEN Rej("c13.family_6_lookup_asks_a")
        ELSE /\ lq' = (IF f.qid \in DOMAIN lq THEN [lq EXCEPT ![f.qid] = [t |-> t, fd |-> e.fd, qt |-> f.qt]] ELSE lq @@ (f.qid :> [t |-> t, fd |-> e.fd, qt |-> f.qt]))
-            /\ lr' = [lr EXCEPT ![t].sent = TRUE]
-            /\ UNCHANGED <<lcfg, lfd>> /\ Acc
+            /\ lr' = [lr EXCEPT ![t].sent = TRUE, ![t].sentq = @ \cup {f.qt}]
+            /\ UNCHANGED <<lcfg, lfd, lc, lnow>> /\ Acc
 
+Cacheable(e) == lcfg.qcache > 0 /\ e.rcode \in {0, 3} /\ e.tc = 0
 HRecv(e) ==
   IF e.res # "ok" \/ "pid" \notin DOMAIN e \/ e.parse = 0 \/ e.fromok = 0 \/ e.qid \notin DOMAIN lq THEN Skip
-  ELSE LET m == lq[e.qid] IN
-       IF m.fd # e.fd \/ e.qt # m.qt \/ e.rcode # 0 \/ e.tc = 1 \/ m.t \notin DOMAIN lr THEN Skip
-       ELSE IF m.qt = 12 THEN lr' = [lr EXCEPT ![m.t].ptr = @ \cup {e.recs[i].m : i \in 1..Len(e.recs)}] /\ UNCHANGED <<lcfg, lq, lfd>> /\ Acc
-       ELSE lr' = [lr EXCEPT ![m.t].exp = @ \cup ToSet(e.recs)] /\ UNCHANGED <<lcfg, lq, lfd>> /\ Acc
+  ELSE LET m == lq[e.qid]
+           lc2 == IF Cacheable(e) /\ m.fd = e.fd /\ e.qt = m.qt
+                  THEN [k \in (DOMAIN lc) \cup {<<e.lname, e.qt>>} |->
+                          IF k = <<e.lname, e.qt>> THEN [recs |-> IF e.rcode = 0 THEN ToSet(e.recs) ELSE {}, at |-> lnow] ELSE lc[k]]
+                  ELSE lc
+       IN
+       IF m.fd # e.fd \/ e.qt # m.qt \/ e.rcode # 0 \/ e.tc = 1 \/ m.t \notin DOMAIN lr THEN lc' = lc2 /\ UNCHANGED <<lcfg, lr, lq, lfd, lnow>> /\ Acc
+       ELSE IF m.qt = 12 THEN lr' = [lr EXCEPT ![m.t].ptr = @ \cup {e.recs[i].m : i \in 1..Len(e.recs)}] /\ lc' = lc2 /\ UNCHANGED <<lcfg, lq, lfd, lnow>> /\ Acc
+       ELSE lr' = [lr EXCEPT ![m.t].exp = @ \cup ToSet(e.recs)] /\ lc' = lc2 /\ UNCHANGED <<lcfg, lq, lfd, lnow>> /\ Acc
 
 Triple(x) == [m |-> x.a, ttl |-> x.ttl, f |-> x.f]
 PtrNames(r) == {"m" \o ToString(m) \o ".ptr.test" : m \in r.ptr}
@@ -72,12 +86,16 @@ HCbb(e) ==
                ELSE IF r.family # 0 /\ got \notin exps THEN Rej("c13.hostent_addresses_differ_from_accepted_answers")
                ELSE Skip
        ELSE IF r.api = "ghba" THEN
-            IF r.ptr = {} THEN Rej("c13.reverse_result_without_ptr_answer")
-            ELSE IF e.host.name \notin PtrNames(r) THEN Rej("c13.reverse_result_not_a_ptr_target")
+            LET ok == PtrNames(r) \cup (IF FileUsed /\ r.hrev # "" THEN {r.hrev} ELSE {}) IN
+            IF ok = {} THEN Rej("c13.reverse_result_without_ptr_answer")
+            ELSE IF FileFirst /\ r.hrev # "" /\ e.host.name # r.hrev THEN Rej("c13.hosts_entry_ignored_by_reverse_lookup")
+            ELSE IF e.host.name \notin ok THEN Rej("c13.reverse_result_not_a_ptr_target")
             ELSE Skip
        ELSE IF r.api = "gni" THEN
-            IF r.ptr = {} THEN Skip        \* numeric fallback when no name was found
-            ELSE IF e.node \notin PtrNames(r) THEN Rej("c13.reverse_result_not_a_ptr_target")
+            LET ok == PtrNames(r) \cup (IF FileUsed /\ r.hrev # "" THEN {r.hrev} ELSE {}) IN
+            IF FileFirst /\ r.hrev # "" /\ e.node # r.hrev THEN Rej("c13.hosts_entry_ignored_by_reverse_lookup")
+            ELSE IF ok = {} THEN Skip        \* numeric fallback when no name was found
+            ELSE IF r.ptr # {} /\ e.node \notin ok THEN Rej("c13.reverse_result_not_a_ptr_target")
             ELSE Skip
        ELSE Skip
 
@@ -87,11 +105,11 @@ HSk(e) ==
     [] OTHER -> Skip
 
 Handle(e) ==
-  CASE e.e = "init" -> lcfg' = e /\ UNCHANGED <<lr, lq, lfd>> /\ Acc
+  CASE e.e = "init" -> lcfg' = e /\ UNCHANGED <<lr, lq, lfd, lc, lnow>> /\ Acc
     [] e.e = "call" -> HCall(e)
     [] e.e = "sk" -> HSk(e)
     [] e.e = "cbb" -> HCbb(e)
-    [] e.e = "crash" -> Stop
+    [] e.e = "crash" -> IF \E t \in DOMAIN lr : lr[t].api \in {"gai", "ghbn", "ghba", "gni"} THEN Rej("c13.crash_during_lookup") ELSE Stop
     [] OTHER -> Skip
 
 Verdict == [verdict |-> IF bad /\ why.label # "" THEN "REJ" ELSE "ACC", id |-> hid, line |-> why.line, label |-> why.label]
@@ -101,7 +119,7 @@ TNext ==
   /\ LET e == Tr[l] IN
        IF e.e = "reset" THEN
             /\ (hid # "" => PrintT(ToJson(Verdict)))
-            /\ lcfg' = [hostsfile |-> 0, usefile |-> 0] /\ lr' = <<>> /\ lq' = <<>> /\ lfd' = <<>>
+            /\ lcfg' = [hostsfile |-> 0, usefile |-> 0, qcache |-> 0] /\ lr' = <<>> /\ lq' = <<>> /\ lfd' = <<>> /\ lc' = <<>> /\ lnow' = 0
             /\ bad' = FALSE /\ why' = [line |-> 0, label |-> ""] /\ hid' = e.id
        ELSE hid' = hid /\ (IF bad THEN Skip ELSE Handle(e))
 TSpec == TInit /\ [][TNext]_tvars
